@@ -159,7 +159,8 @@ def session(w, cfg, po, V, stats, first, ctx, observe):
     first = first or mine
     n_before = len(tr.written)
     t_open = w.now()
-    w.deliver(peer_open(asn=po['asn'], hold=po['hold'], ver=po['ver'], caps=caps_for(po['caps'], po['asn'])), tr)
+    w.deliver(peer_open(asn=po['asn'], hold=po['hold'], ver=po['ver'], caps=caps_for(po['caps'], po['asn']),
+                        bid=po.get('bid', 0x0a000002)), tr)
     ans = [wire.summarize(f) for f in wire.frames_of_writes(tr.written[n_before:])]
     exp = expected_answer(cfg, po)
     stats['decisions'] += 1
@@ -249,7 +250,7 @@ def run_case(case, V, stats):
 def rand_peer(rng, cfg, good=None):
     good = rng.random() < 0.6 if good is None else good
     if good:
-        return dict(ver=4, asn=cfg['remote_as'], hold=rng.choice([0, 3, 90, 65535, 9]),
+        return dict(ver=4, asn=cfg['remote_as'], hold=rng.choice([0, 3, 90, 65535, 9]), bid=rng.choice([0x0a000002, 0x0a000002, 0x0a000003, 0xc0000201, 1]),
                     caps=rng.choice(['mp+rr+as4', 'rich', 'as4only'] + (['none', 'mp', 'mp+rr', 'unknown'] if cfg['remote_as'] <= 65535 else [])))
     return dict(ver=rng.choice([4, 4, 4, 3, 5]), asn=rng.choice(ASNS + [cfg['remote_as']] * 4), hold=rng.choice(PROP_HOLDS),
                 caps=rng.choice(list(CAP_POOLS)))
@@ -262,8 +263,6 @@ def gen_cases(rng, n):
         if rng.random() < 0.15:
             ra = la
         bgp = {s: rng.random() < 0.6 for s in switches}
-        if la > 65535:
-            bgp['four_bytes_as'] = True
         if rng.random() < 0.3:
             bgp['add_path'] = rng.choice(['ipv4_send', 'ipv4_receive', 'ipv4_both'])
         if rng.random() < 0.3:
@@ -293,7 +292,7 @@ def systematic_cases():
                     b2['add_path'] = ap
                 cfg = dict(local_as=65001, remote_as=65002, hold=90, bgp=b2)
                 for h in (['none'], ['rich'], ['mp', 'rich'], ['as4only', 'none']):
-                    hist = [dict(ver=4, asn=65002, hold=90, caps=c) for c in h]
+                    hist = [dict(ver=4, asn=65002, hold=90, caps=c, bid=0x0a000002 + i) for i, c in enumerate(h)]
                     for pc in ('mp+rr+as4', 'mp'):
                         yield dict(cfg=cfg, history=hist, peer=dict(ver=4, asn=65002, hold=30, caps=pc), seed=2)
 
